@@ -356,6 +356,8 @@ def rewrite_body(S, b0, b1, opts, log):
     text = ed.apply(src, toks[b0].start, toks[b1].end)
     for (s, e, _, rule, note) in sorted(ed.e):
         log.append({"rule": rule, "note": note})
+    if opts.get("slice"):
+        text = apply_slice(text, opts, log)
     # literal site substitutions
     for old, new in opts.get("subst", []):
         if text.count(old) != 1:
@@ -428,19 +430,21 @@ def emit_fn(root, d, log_all):
         raise ExtractError("async fn is outside the supported subset")
     vis = "" if d.get("nopub") else "pub "
     body = rewrite_body(S, b0, b1, d, log)
-    if d.get("slice"):
-        body = apply_slice(body, d, log)
     attrs = "".join(a + "\n" for a in d.get("attrs", []))
     spec = d.get("spec", "")
+    if d.get("sig"):
+        # R10: a slice of a function gets the signature written in the template
+        head, ret, wh = d["sig"], "", ""
+        log.append({"rule": "R10", "note": "signature of the slice supplied by the template: " + d["sig"]})
     out = f"{attrs}{vis}{head}{ret}{wh}\n{spec}\n{body}\n"
     if CANARY and not d.get("nopub"):
         # vacuity guard: a renamed copy with `false` among its ensures; callees keep their real
         # contracts, so the copy must FAIL unless the precondition is contradictory
         cname = d.get("rename", d["name"]) + "__canary"
-        chead = re.sub(r"\bfn\s+" + re.escape(d.get("rename", d["name"])) + r"\b", "fn " + cname, head, count=1)
+        chead = re.sub(r"\bfn\s+(\w+)", lambda m: "fn " + m.group(1) + "__canary", head, count=1)
         out += f"{attrs}{vis}{chead}{ret}{wh}\n{add_false_ensures(spec)}\n{body}\n"
     meta = {
-        "id": (d["impl"] + "::" if d["impl"] != "-" else "") + d.get("rename", d["name"]),
+        "id": d["emit_id"] if d.get("emit_id") else (d["impl"] + "::" if d["impl"] != "-" else "") + d.get("rename", d["name"]),
         "file": d["file"],
         "src_lines": [line_of(src, toks[kw].start), line_of(src, toks[b1].end)],
         "rewrites": log,
@@ -603,10 +607,14 @@ def parse_template(path):
                 out.append(("type", dd))
             elif cur is None:
                 raise ExtractError(f"{path}:{i+1}: directive outside fn block: {cmd}")
+            elif cmd.startswith("sig "):
+                cur["sig"] = cmd[4:].strip()
             elif cmd.startswith("ret "):
                 cur["ret"] = cmd[4:].strip()
             elif cmd.startswith("attr "):
                 cur["attrs"].append(cmd[5:].strip())
+            elif cmd.startswith("id "):
+                cur["emit_id"] = cmd[3:].strip()
             elif cmd == "nopub":
                 cur["nopub"] = True
             elif cmd.startswith("rename "):
@@ -614,12 +622,12 @@ def parse_template(path):
             elif cmd.startswith("f64 "):
                 cur["f64"].append(cmd[4:].strip())
             elif cmd.startswith("subst "):
-                m = re.match(r"subst\s+<<(.*)>>\s*==>\s*<<(.*)>>\s*$", cmd)
+                m = re.match(r"subst\s+<<(.*?)>>\s*==>\s*<<(.*)>>\s*$", cmd)
                 if not m:
                     raise ExtractError(f"{path}:{i+1}: bad subst")
                 cur["subst"].append((m.group(1), m.group(2)))
             elif cmd.startswith("slice "):
-                m = re.match(r"slice\s+<<(.*)>>\s*==>\s*<<(.*)>>\s*(?:tail\s+<<(.*)>>)?\s*$", cmd)
+                m = re.match(r"slice\s+<<(.*?)>>\s*==>\s*<<(.*?)>>\s*(?:tail\s+<<(.*)>>)?\s*$", cmd)
                 if not m:
                     raise ExtractError(f"{path}:{i+1}: bad slice")
                 cur["slice"] = (m.group(1), m.group(2))
